@@ -69,4 +69,90 @@ theorem walkItems_heads : ∀ (items : Items) (as : List AItem), walkItems items
       simp [Items.heads, ihr as' h2]
     · simp at h
 
+
+/-- every declaration key is non-empty (true of every tree the parser builds from lexer tokens:
+an ID token has at least its head character) -/
+def Items.keysOK : Items → Prop
+  | .nil => True
+  | .rule _ rest => rest.keysOK
+  | .decl d rest => d.key ≠ [] ∧ rest.keysOK
+  | .lit _ rest => rest.keysOK
+  | .sec _ _ rest => rest.keysOK
+
+theorem walkFns_cons {f : CFn} {fs : List CFn} {gs : List Fn} (h : walkFns (f :: fs) = some gs) :
+    ∃ g gs', gs = g :: gs' ∧ g.name = f.name := by
+  simp only [walkFns] at h
+  split at h
+  · rename_i a as ha _
+    simp only [Option.some.injEq] at h
+    exact ⟨a, as, h.symm, by rw [(walkFn_some ha).2]⟩
+  · simp at h
+
+/-- **The Walker keeps every item, in order, under its own name**: the heads of the AST items
+(first function name of a rule, key of a declaration, value of a literal, name of a section) are
+the heads of the written items. -/
+theorem walkItems_heads_eq : ∀ (items : Items) (as : List AItem), walkItems items = some as → items.keysOK →
+    as.map AItem.head = items.heads := by
+  intro items
+  induction items with
+  | nil => intro as h _; simp only [walkItems, Option.some.injEq] at h; subst h; rfl
+  | rule r rest ih =>
+    intro as h hk
+    simp only [walkItems] at h
+    split at h
+    · rename_i a as' h1 h2
+      simp only [Option.some.injEq] at h; subst h
+      have ha : a.head = r.first.name := by
+        unfold walkRule at h1
+        split at h1
+        · rename_i fs o hfs _
+          simp only [Option.some.injEq] at h1
+          subst h1
+          obtain ⟨g, gs', rfl, hg⟩ := walkFns_cons hfs
+          simp [AItem.head, hg]
+        · simp at h1
+      simp [Items.heads, ha, ih as' h2 hk]
+    · simp at h
+  | decl d rest ih =>
+    intro as h hk
+    simp only [walkItems] at h
+    split at h
+    · rename_i a as' h1 h2
+      simp only [Option.some.injEq] at h; subst h
+      have ha : a.head = d.key := by
+        unfold walkDecl at h1
+        split at h1
+        · simp at h1
+        · split at h1
+          · simp only [Option.some.injEq] at h1
+            subst h1
+            have : d.key.isEmpty = false := by
+              cases hd : d.key with
+              | nil => exact absurd hd hk.1
+              | cons _ _ => rfl
+            simp [AItem.head, this]
+          · split at h1
+            · simp at h1
+            · simp only [Option.some.injEq] at h1
+              subst h1
+              rfl
+      simp [Items.heads, ha, ih as' h2 hk.2]
+    · simp at h
+  | lit l rest ih =>
+    intro as h hk
+    simp only [walkItems] at h
+    split at h
+    · rename_i as' h2
+      simp only [Option.some.injEq] at h; subst h
+      simp [Items.heads, AItem.head, ih as' h2 hk]
+    · simp at h
+  | sec n body rest _ ihr =>
+    intro as h hk
+    simp only [walkItems] at h
+    split at h
+    · rename_i b as' _ h2
+      simp only [Option.some.injEq] at h; subst h
+      simp [Items.heads, AItem.head, ihr as' h2 hk]
+    · simp at h
+
 end DaeVerif.C17
